@@ -7,10 +7,12 @@ interleaved) are executed through every update entry point of the real engine; T
 request from the recorded lexical dataset before and after it (tla/sparql/UpdateTrace.tla).
 """
 import json
+import os
 import time
 import vlib
 from vlib import log
 from checks import updcommon as U
+from checks import sparqlgen as G
 
 MIX = {"update": 12, "reject": 2, "select": 1, "readonly": 1, "alias": 1, "fuzzed": 1, "malformed": 1}
 MINE = {"update", "reject"}
@@ -38,6 +40,97 @@ def judge(events, meta, res, verdict, only=MINE):
     return failed
 
 
+CONTROLS = {"where-twice": "the INSERT template is instantiated from a second WHERE evaluation after the deletions",
+            "insert-first": "insertions applied before deletions", "shared-bnode": "one blank node per label for the whole operation",
+            "count-requested": "counts are the sizes of the requested sets", "no-skip": "the allocator does not skip lexical forms the dictionary knows",
+            "late-reject": "deletions applied before a failing INSERT instantiation is noticed"}
+
+
+def nt_term(t):
+    return t if t.startswith("_:") else G.render(t)
+
+
+def l2_case(b, ep):
+    """One TLC-emitted (dataset, operation) instance as a request history: the dataset is built through INSERT DATA
+    (quads with a given blank-node label through the N-Triples loader), then the operation is submitted."""
+    quads = [tuple(q) for q in b["quads"]]
+    plain = [q for q in quads if not any(t.startswith("_:") for t in q)]
+    blank = [q for q in quads if any(t.startswith("_:") for t in q)]
+    steps = [dict(st, meta={"cls": "setup"}) for st in G.setup_steps(plain, [])]
+    if blank:
+        steps.append({"k": "load", "ep": "", "text": "".join(f"{nt_term(s_)} {nt_term(p)} {nt_term(o)} .\n" for s_, p, o, g in blank if g == ""), "meta": {"cls": "setup"}})
+    op = {k: b["op"][k] for k in ("form", "del", "ins", "where")}
+    steps.append(U.step("update", ep, G.pr_update(op), {"cls": "update", "op": op, "counts": ep in ("update", "db"),
+                                                       "model": {"post": b["post"], "ins": b["ins"], "del": b["del"], "graphs": b["graphs"]}}))
+    return {"steps": steps}
+
+
+def model_layers(wd, verdict, thorough):
+    """L1: TLC checks the code-shaped model of the executor (tla/sparql/UpdateImpl.tla) against Update!Effect for every dataset of
+    a small universe x a menu of operations x every application order; each classic mistake (a variant of the model) must be
+    rejected.  L2: every (dataset, operation) instance of that model is replayed on the real engine through the update entry
+    points and judged by UpdateTrace.tla; the model's predicted post-state is compared as well (drift is reported, not a verdict)."""
+    # -coverage 1 costs minutes on this operator-heavy specification: only in the thorough tier
+    mc = vlib.tlc_mc(U.FAMILY, "MCUpdate.tla", "MCUpdate_code.cfg", workers=4, timeout=1800, tag="c03-l1", coverage=thorough)
+    if mc["violated"]:
+        raise vlib.ToolError(f"UpdateImpl.tla (code variant) violates {mc['violated']}: the model is out of date with the requirement (not a verdict)")
+    controls = {}
+    for v in CONTROLS:
+        c = vlib.tlc_mc(U.FAMILY, "MCUpdate.tla", f"MCUpdate_{v}.cfg", workers=4, timeout=900, tag=f"c03-l1-{v}", coverage=False)
+        controls[v] = c["violated"]
+        if not c["violated"]:
+            raise vlib.ToolError(f"negative control '{v}' ({CONTROLS[v]}) is not rejected by the requirement: the L1 check is vacuous")
+    log(f"L1 UpdateImpl against Update!Effect: {mc['states']} distinct states, violated=None, actions never taken: {[a for a in mc['uncovered'] if a != 'Where2'] if thorough else 'not measured in the quick tier'}; {len(controls)} negative controls rejected")
+    beh, st = vlib.tlc_emit(U.FAMILY, "MCUpdate.tla", "MCUpdate_emit.cfg", workers=4, timeout=900, tag="c03-l2-emit")
+    uniq = {}
+    for b in beh:
+        if b["outcome"] != "done":
+            continue
+        uniq.setdefault(json.dumps([sorted(map(tuple, b["quads"])), b["op"]], sort_keys=True), b)
+    eps = ["update", "db", "volcano", "handle", "http-update", "http-form-update"]
+    cases = [l2_case(b, eps[i % len(eps)]) for i, b in enumerate(uniq.values())]
+    cp, tp, ep_ = (os.path.join(wd, f"l2-{x}.ndjson") for x in ("cases", "trace", "tlc"))
+    vlib.write_ndjson(cp, cases)
+    vlib.kverif(["sparql", "--cases", cp, "--out", tp])
+    events, meta = U.to_events(tp, ep_)
+    res = vlib.tlc_trace(U.FAMILY, "UpdateTrace.tla", "UpdateTrace.cfg", ep_, tag="c03-l2", heap="4g")
+    failed = judge(events, meta, res, verdict)
+    drift = 0
+    for e in events:
+        m = meta[e["run"]]
+        model = m["case"]["steps"][m["step"]]["meta"].get("model")
+        if model and e["run"] not in failed:
+            nf = lambda qs: sorted(tuple(q) for q in qs if not any(str(t).startswith("_:kolibrie-update-") for t in q))
+            if nf(model["post"]) != nf(e["post"]["quads"]) or (e["counts"] and (model["ins"], model["del"]) != (e["ins"], e["del"])):
+                drift += 1
+    if drift:
+        print(f"MODEL-DRIFT: property=C03 {drift} replayed instance(s) satisfy the requirement but differ from UpdateImpl.tla's prediction")
+    log(f"L2 replayed {len(cases)} (dataset, operation) instances of the model on the real engine: {len(failed)} rejected, {drift} differ from the model only")
+    return dict(states=mc["states"], transitions=mc["transitions"], controls=controls), dict(instances=len(cases), rejected=len(failed), drift=drift)
+
+
+def alloc_cases(seed, n):
+    """Blank-node allocator: the database already knows nodes whose labels look like allocated ones (a range around the
+    process-wide counter), then templates with blank nodes are instantiated for several solutions."""
+    import random
+    rng = random.Random(seed * 7907 + 3)
+    cases = []
+    for i in range(n):
+        label = ["x", "y"][i % 2]
+        known = "".join(f"<http://e/i{1 + k % 3}> <http://e/p2> _:kolibrie-update-{k}-{label} .\n" for k in range(1, 400))
+        steps = [dict(st, meta={"cls": "setup"}) for st in G.setup_steps([("http://e/i1", "http://e/p1", "http://e/i2", ""), ("http://e/i2", "http://e/p1", "http://e/i3", ""),
+                                                                          ("http://e/i3", "http://e/p1", "http://e/i1", "")], [])]
+        steps.append({"k": "load", "ep": "", "text": known, "meta": {"cls": "setup"}})
+        V, C = G.V, G.C
+        where = {"t": "join", "ps": [{"t": "bgp", "tps": [[V("a"), C("http://e/p1"), V("b")]]}]}
+        for j in range(rng.choice([1, 2, 3])):
+            op = {"form": "insert_where", "del": [], "ins": [[V("a"), C("http://e/pl"), ["b", label], G.DEFAULT_G], [["b", label], C("http://e/p1"), V("b"), C(G.GRAPHS[0])]], "where": where}
+            ep = rng.choice(["update", "db", "handle"])
+            steps.append(U.step("update", ep, G.pr_update(op), {"cls": "update", "op": op, "counts": ep in ("update", "db")}))
+        cases.append({"steps": steps})
+    return cases
+
+
 def run(ctx):
     t0 = time.time()
     verdict = vlib.Verdict("C03", ctx.seed, ctx.tier)
@@ -48,8 +141,9 @@ def run(ctx):
         judge(events, meta, res, verdict)
         return verdict.finish()
     thorough = ctx.tier == "thorough"
+    l1, l2 = model_layers(wd, verdict, thorough)
     nh, nops = (400, 60) if thorough else (40, 40)
-    events, meta, res = U.run_histories(wd, ctx.seed, nh, nops, MIX, "c03")
+    events, meta, res = U.run_histories(wd, ctx.seed, nh, nops, MIX, "c03", extra_cases=alloc_cases(ctx.seed, 12 if thorough else 4))
     failed = judge(events, meta, res, verdict)
     mine = [e for e in events if e["cls"] in MINE]
     skipped = len(res["info"])
@@ -66,10 +160,12 @@ def run(ctx):
            "rule": "seeded histories over a 14-term universe, 3 named graphs + 1 new graph; distinct by (operation tree, pre-state); "
                    "non-trivial = a valid update that changed the dataset",
            "samples": [{"request": meta[smp["run"]]["text"], "ep": smp["ep"], "pre": smp["pre"], "post": smp["post"], "ins": smp["ins"], "del": smp["del"]}],
-           "states": res["states"], "transitions": res["states"], "traces_validated_against_impl": nh,
+           "states": l1["states"], "transitions": l1["transitions"], "traces_validated_against_impl": nh + l2["instances"], "trace_states": res["states"],
+           "l1_negative_controls_rejected": l1["controls"], "l2_model_instances_replayed": l2,
            "changing_updates_per_form": per_form, "rejected_requests": sum(1 for e in mine if e["cls"] == "reject"), "skipped": skipped}
     vlib.write_evidence("C03", ctx.tier, ctx.seed, "model_checking", cov,
-                        ["each request is judged against the dataset recorded before it (no accumulated model state)",
+                        ["L1 is exhaustive for 32 datasets x 13 operations x 2 counter values x all application orders of UpdateImpl.tla only; it is bound to the code through L2/L3",
+                         "each request is judged against the dataset recorded before it (no accumulated model state)",
                          "fresh blank nodes are matched by a bijection TLC searches; at most 6 per request by construction",
                          "legal term positions use the lexical kind tables computed in Python"],
                         time.time() - t0, len(verdict.violations))
